@@ -172,3 +172,60 @@ Qed.
 
 Theorem derived_has_no_index : forall o g', go_sindex (derived_obj o g') = None.
 Proof. reflexivity. Qed.
+
+(* ------------------------------------------ the index configuration is irrelevant *)
+(* for EVERY key (also boxes of zero extent, also NaN ends): two indexes built on
+   the same array with any two (keys, page_size) give the same .cx answer.  This is
+   what lets the correspondence check run the model with the identity permutation
+   instead of the private [_keys] array of the real index. *)
+Lemma sort_nat_perm_eq : forall l l', Permutation l l' -> sort_nat l = sort_nat l'.
+Proof.
+  intros l l' P. apply sorted_perm_eq; try apply sort_nat_sorted.
+  eapply perm_trans; [apply sort_nat_perm|]. eapply perm_trans; [exact P|].
+  apply Permutation_sym, sort_nat_perm.
+Qed.
+
+Theorem index_config_irrelevant : forall g keys ps keys' ps' xs ys,
+  kind_ok g ->
+  Permutation keys (seq 0 (g_len g)) -> Permutation keys' (seq 0 (g_len g)) ->
+  cx_positions (build_sindex (new_obj g) keys ps) xs ys
+  = cx_positions (build_sindex (new_obj g) keys' ps') xs ys.
+Proof.
+  intros g keys ps keys' ps' xs ys K HP HP'.
+  set (rows := map row_of_bbox (g_bounds g)).
+  assert (Hn : length rows = g_len g) by (unfold rows; rewrite map_length; apply (k_bounds_len g K)).
+  pose proof (k_wf_box g K) as Hwf. fold rows in Hwf.
+  assert (Hd : 1 <= 2) by lia.
+  assert (P1 : Permutation keys (seq 0 (length rows))) by (rewrite Hn; exact HP).
+  assert (P2 : Permutation keys' (seq 0 (length rows))) by (rewrite Hn; exact HP').
+  assert (TB : total_bounds (build 2 rows keys ps) = total_bounds (build 2 rows keys' ps')).
+  { rewrite !C03_total_bounds_box; try assumption; try reflexivity; apply (wf_len 2 rows Hwf). }
+  assert (GB : get_bounds (build_sindex (new_obj g) keys ps) xs ys
+               = get_bounds (build_sindex (new_obj g) keys' ps') xs ys).
+  { unfold get_bounds. cbn [build_sindex new_obj go_sindex go_data]. unfold sindex_build.
+    fold rows. rewrite TB. reflexivity. }
+  unfold cx_positions. rewrite GB.
+  destruct (get_bounds (build_sindex (new_obj g) keys' ps') xs ys) as [[[[x0 x1] y0] y1]|];
+    [|reflexivity].
+  cbn [build_sindex new_obj go_sindex go_data]. unfold sindex_build. fold rows.
+  destruct x0 as [a|], y0 as [b|], x1 as [c|], y1 as [d|]; try (rewrite TB; reflexivity).
+  set (q := [a; b; c; d]).
+  assert (Hq : length q = 2 * 2) by reflexivity.
+  destruct (C03_covers_overlaps 2 rows keys ps q Hd Hwf P1 Hq) as [C1 O1].
+  destruct (C03_covers_overlaps 2 rows keys' ps' q Hd Hwf P2 Hq) as [C2 O2].
+  pose proof (fun i => C03_overlaps_In 2 rows keys ps q i Hd Hwf P1 Hq) as HO1.
+  pose proof (fun i => C03_overlaps_In 2 rows keys' ps' q i Hd Hwf P2 Hq) as HO2.
+  destruct (covers_overlaps (build 2 rows keys ps) q) as [cv ov].
+  destruct (covers_overlaps (build 2 rows keys' ps') q) as [cv' ov'].
+  cbn [fst snd] in *.
+  destruct (k_total g K (a, b, c, d)) as [r [Hr Hl]].
+  rewrite !(k_forms g K), Hr.
+  assert (A1 : forallb (fun j => Nat.ltb j (length r)) ov = true).
+  { apply forallb_forall. intros j Hj. apply Nat.ltb_lt. rewrite Hl, <- Hn. apply HO1, Hj. }
+  assert (A2 : forallb (fun j => Nat.ltb j (length r)) ov' = true).
+  { apply forallb_forall. intros j Hj. apply Nat.ltb_lt. rewrite Hl, <- Hn. apply HO2, Hj. }
+  rewrite A1, A2. f_equal. rewrite !masked_map_filter.
+  apply sort_nat_perm_eq. apply Permutation_app.
+  - eapply perm_trans; [exact C1 | apply Permutation_sym, C2].
+  - apply Permutation_filter'. eapply perm_trans; [exact O1 | apply Permutation_sym, O2].
+Qed.
